@@ -1,11 +1,11 @@
 #!/bin/bash
 # runs the quick check of the target property against every seeded change; prints one line per change
 cd /verif
-for d in seeded/*/; do
+for d in /verif/seeded/*/; do
   n=$(basename $d); p=${n%%-*}
-  extra=$(python3 -c "import json;print(' '.join(json.load(open('$d/meta.json')).get('also_check',[])))" 2>/dev/null)
+  extra=$(python3 -c "import json;print(' '.join(json.load(open('${d}meta.json')).get('also_check',[])))" 2>/dev/null)
   cd /repo && git status --short | grep -q . && { echo "/repo not clean"; exit 1; }
-  git -C /repo apply /verif/$d/patch.diff || { echo "$n: patch does not apply"; continue; }
+  git -C /repo apply ${d}patch.diff || { echo "$n: patch does not apply"; continue; }
   for P in $p $extra; do
     s=$(date +%s)
     out=$(cd /verif && python3 check.py $P --tier quick 2>/dev/null | grep -E "^(VIOLATION|OK|INCONCLUSIVE|  signature)" | head -2 | tr '\n' ' ' | cut -c1-160)
